@@ -162,6 +162,7 @@ func VerifHarness_C07_signs() {
 
 func init() {
 	vHarness["C07_glue"] = VerifHarness_C07_glue
+	vHarness["C07_equ"] = VerifHarness_C07_equ
 	vHarness["C07_assert"] = VerifHarness_C07_assert
 	vHarness["C07_constants"] = VerifHarness_C07_constants
 }
@@ -309,16 +310,108 @@ func VerifHarness_C07_assert() {
 		{typ: lineComment, comment: text},
 		{typ: lineInstruction, op: "dat", a: []token{{tokNumber, "0"}}},
 	}
+	// further assertions, before or after the instruction: the program is
+	// rejected when any one of them is zero
+	anyZero := v == 0
+	extra := vPick("extra", 0, 2)
+	for k := 0; k < extra; k++ {
+		u := vPick("u", -1, 1)
+		if u == 0 {
+			anyZero = true
+		}
+		l := sourceLine{typ: lineComment, comment: ";assert " + vDec(u)}
+		if vPick("where", 0, 1) == 0 {
+			lines = append(lines, l)
+		} else {
+			lines = append([]sourceLine{lines[0], l}, lines[1:]...)
+		}
+	}
 	c, _ := newCompiler(lines, WarriorData{}, ConfigNOP94)
 	w, err := c.compile()
 	if err != nil {
-		vAssert("rejected-iff-assert-is-zero", v == 0)
+		vAssert("rejected-iff-assert-is-zero", anyZero)
 		vReach("rejected")
 		return
 	}
-	vAssert("rejected-iff-assert-is-zero", v != 0)
+	vAssert("rejected-iff-assert-is-zero", !anyZero)
 	vAssert("assembled", len(w.Code) == 1)
 	vReach("accepted")
+}
+
+// EQU names inside EQU values: the operand is evaluated as if every name
+// were replaced by its parenthesis-free token list (textual substitution, as
+// the assembler documents), whatever the position of the name in the value
+func VerifHarness_C07_equ() {
+	M := ConfigNOP94.CoreSize
+	a := vInt("a")
+	b := vInt("b")
+	k := vInt("k")
+	for _, x := range []int{a, b, k} {
+		vAssume(x >= 0)
+		vAssume(x <= 1000)
+	}
+	// inner value: one token, a sum, a signed number, a parenthesised sum
+	var inner []token
+	var innerVal func(mulBy int, left bool) int // value of "x*k" (left) or "k*x" under textual substitution
+	switch vPick("inner", 0, 3) {
+	case 0:
+		inner = []token{tNum(a)}
+		innerVal = func(m int, left bool) int { return a * m }
+	case 1:
+		inner = []token{tNum(a), tSym("+"), tNum(b)}
+		innerVal = func(m int, left bool) int {
+			if left {
+				return a + b*m // a+b*k
+			}
+			return m*a + b // k*a+b
+		}
+	case 2:
+		inner = []token{tSym("-"), tNum(a)}
+		innerVal = func(m int, left bool) int { return -a * m }
+	default:
+		inner = []token{{tokParenL, "("}, tNum(a), tSym("+"), tNum(b), {tokParenR, ")"}}
+		innerVal = func(m int, left bool) int { return (a + b) * m }
+	}
+	// outer value: the name first, last, or in the middle of the definition
+	var outer []token
+	want := 0
+	switch vPick("outer", 0, 2) {
+	case 0:
+		outer = []token{tText("x"), tSym("*"), tNum(k)}
+		want = innerVal(k, true)
+	case 1:
+		outer = []token{tNum(k), tSym("*"), tText("x")}
+		want = innerVal(k, false)
+	default:
+		outer = []token{tNum(1), tSym("+"), tText("x"), tSym("+"), tNum(2)}
+		want = 1 + innerVal(1, true) + 2
+	}
+	var t []token
+	order := vPick("order", 0, 1)
+	defX := append(append([]token{tText("x"), tText("equ")}, inner...), tNL)
+	defY := append(append([]token{tText("y"), tText("equ")}, outer...), tNL)
+	if order == 0 {
+		t = append(append(t, defX...), defY...)
+	} else {
+		t = append(append(t, defY...), defX...)
+	}
+	t = append(t, tText("dat"), tSym("#"), tText("y"), tComma, tSym("#"), tText("x"), tNL, token{tokEOF, ""})
+	vUnwind(400)
+	vPrune(false)
+	w, err := vCompileTokens(t, ConfigNOP94)
+	vPrune(true)
+	vAssert("assembles", err == nil)
+	if err != nil {
+		return
+	}
+	vAssert("one-instruction", len(w.Code) == 1)
+	if len(w.Code) != 1 {
+		return
+	}
+	vAssert("nested-equ-value", w.Code[0].A == vReduce(want, M))
+	vAssert("inner-equ-value", w.Code[0].B == vReduce(innerVal(1, true), M))
+	vObserve("a", uint64(w.Code[0].A))
+	vReach("end")
 }
 
 // the predefined names equal the configuration's values
